@@ -39,6 +39,7 @@ func genBattle(t *rapid.T, maxW int, bigOffsets bool) battleCase {
 		c.Cfg.R, c.Cfg.W = m, m
 	}
 	c.Cfg.P = rapid.SampledFrom([]int{1, 2, 2, 3, 3, 4, 6, 16}).Draw(t, "P")
+	c.Cfg.Mode = rapid.IntRange(0, 2).Draw(t, "mode")
 	if rapid.IntRange(0, 9).Draw(t, "cyk") == 0 {
 		c.Cfg.Cycles = rapid.IntRange(81, 500).Draw(t, "cycles")
 	} else {
